@@ -351,7 +351,8 @@ class RuntimeContext:
         if self.context:
             self.routes = list(self.context.routes)
 
-        if route:
+        if route is not None:
+            # index 0 and the key '' are routes as well (not a new nesting level)
             self.routes.append(route)
         else:
             self.depth += 1
